@@ -61,7 +61,7 @@ def run_case(ctx):
     src = ctx.src
     common.draw_env(ctx)
     common.prelude(ctx)
-    m = world.gen_world(src, scale=("hugebox", "manyboxes", "farcorner", "manyfields"), lowprec_ok=True)
+    m = world.gen_world(src, scale=("hugebox", "manyboxes", "farcorner", "manyfields", "longdomain"), lowprec_ok=True)
     from amr_kitchen import PlotfileCooker as _PC
     path, hcwd, _abs, hmode = common.history_materialise(
         ctx, m, lambda p: run_tool(ctx, lambda: (list(_PC(p)[0][0]), _PC(p)[0][0][:])))
@@ -83,10 +83,18 @@ def run_case(ctx):
             ctx.nontrivial = True
         if mode == 0:
             cap = nb + nfiles + 2
+            # the selection object was already iterated in part (a peek at the first boxes, a loop left with
+            # break): iterating it again starts over and yields every box
+            peek = min(src.choice(f"s{s}.peek", [0, 0, 0, 1, 2]), nb)
 
             def it():
                 out = []
-                itr = iter(pck[fsel][lv])
+                stream = pck[fsel][lv]
+                if peek:
+                    first = iter(stream)
+                    for _ in range(peek):
+                        next(first)
+                itr = iter(stream)
                 n = 0
                 while True:
                     n += 1
@@ -113,7 +121,9 @@ def run_case(ctx):
                                 f"multiset of (shape, bytes) differs from the stored boxes; "
                                 f"shapes got {[a.shape for a in got][:6]} want "
                                 f"{[common.expected_box(m, lv, b, fidx).shape for b in range(nb)][:6]}")
-            keyparts.append(("iter", fdesc, lv))
+            keyparts.append(("iter", fdesc, lv, peek))
+            if peek:
+                ctx.probe("iterated_again_after_partial_iteration")
             # <= 4 per-file tasks: ALL feasible completion orders x W in {1,2,16} x {lazy, eager}
             if 2 <= nfiles <= 4:
                 import math
